@@ -662,6 +662,8 @@ class Evaluator:
                 if bb == self.stop[1] and visits.get(bb, 0) >= 1:
                     return ("next", tuple(env.get(l, ("uninit",)) for l in self.stop[3]))
                 if bb not in self.stop[2]:
+                    if fn.blocks[bb]["term"]["t"] == "unreachable":
+                        return ("unreachable",)
                     return ("exit", bb)
             if self.summarize_loops and visits.get(bb, 0) == 0:
                 lp = fn.loops()
@@ -1247,6 +1249,9 @@ DEFAULT_MODELS = {
     "<alloc::string::String as core::ops::deref::Deref>::deref": _ident,
     "<alloc::vec::Vec<T, A> as core::ops::deref::Deref>::deref": _ident,
     "<alloc::sync::Arc<T, A> as core::ops::deref::Deref>::deref": _ident,
+    "<alloc::vec::Vec<T, A> as core::ops::deref::DerefMut>::deref_mut": _ident,
+    "<alloc::string::String as core::ops::deref::DerefMut>::deref_mut": _ident,
+    "alloc::vec::Vec::<T, A>::as_mut_slice": _ident,
     "<alloc::boxed::Box<T, A> as core::clone::Clone>::clone": _ident,
     "<alloc::vec::Vec<T, A> as core::clone::Clone>::clone": _ident,
     "<alloc::string::String as core::clone::Clone>::clone": _ident,
